@@ -46,6 +46,12 @@ def Ev.fold? : Ev → Option Eid
   | .vtx _ => none
   | .fold e => some e
 
+/-- The Vid an event occupies in the `visited_vids` set of `compute_component` (the destination of
+edge/fold number `e` is `e + 1`). -/
+def evVid : Ev → Vid
+  | .vtx w => w
+  | .fold e => e + 1
+
 def vtxs (L : List Ev) : List Vid := L.filterMap Ev.vtx?
 def flds (L : List Ev) : List Eid := L.filterMap Ev.fold?
 
@@ -341,6 +347,10 @@ theorem Ext.trans {c c' c'' : Ctx} (h1 : Ext c c') (h2 : Ext c' c'') : Ext c c''
   obtain ⟨⟨a2, ha2⟩, ⟨b2, hb2⟩, ⟨d2, hd2⟩, v2, i2⟩ := h2
   exact ⟨⟨a1 ++ a2, by rw [ha2, ha1, List.append_assoc]⟩, ⟨b1 ++ b2, by rw [hb2, hb1, List.append_assoc]⟩,
     ⟨d1 ++ d2, by rw [hd2, hd1, List.append_assoc]⟩, v2.trans v1, i2.trans i1⟩
+
+/-- The active vertex of the starting context does not matter. -/
+theorem Ext.of_active {c c' : Ctx} {s : Option VertexId} (h : Ext { c with active := s } c') :
+    Ext c c' := ⟨h.verts, h.counts, h.folded, h.values, h.imported⟩
 
 theorem find?_append_of_mem {α : Type} {p : α → Bool} {l ext : List α}
     (h : (l.find? p).isSome) : (l ++ ext).find? p = l.find? p := by
